@@ -60,6 +60,7 @@ type H struct {
 	extra    map[string]any
 	replay   string // VERIF_REPLAY path: run only that case
 	excluded int
+	fallback any // first case evaluated: the sample when no non-trivial case was reached
 	lines    []string
 }
 
@@ -181,6 +182,9 @@ func (h *H) sub(name string) *subStats {
 
 func (h *H) note(s *subStats, c any, v Verdict) {
 	s.Evaluations++
+	if h.fallback == nil {
+		h.fallback = c
+	}
 	if v.Skip != "" {
 		s.Skipped++
 		s.Classes["skip:"+v.Skip]++
@@ -439,6 +443,9 @@ func (h *H) Finish() {
 		skipped += s.Skipped
 		exh = exh && s.Exhaustive
 		subs[n] = s
+	}
+	if len(h.samples) == 0 && h.fallback != nil {
+		h.samples = []any{h.fallback}
 	}
 	cov := map[string]any{
 		"evaluations":            evals,
